@@ -6,7 +6,7 @@ from . import symx
 
 class Obligation:
     def __init__(self, name, harness, env=None, bounds=None, stubs=(), assumes=(), leverage="inputs",
-                 max_paths=20000, path_wall_s=20.0, total_wall_s=None, query_timeout_ms=20000,
+                 max_paths=20000, path_wall_s=60.0, total_wall_s=None, query_timeout_ms=20000,
                  witness_every=1, replay=None, expect_labels=None, conc_env=None, kind="symx", fast_fp=False,
                  witness_violations=False, crash_is_violation=None):
         self.fast_fp = fast_fp
